@@ -35,6 +35,7 @@ Lemma subst_na m s : lits_closed m -> na s = true -> na (subst true m s) = true.
 Proof.
   intros Hm Hs. destruct s; try reflexivity; try discriminate.
   - cbn. destruct (rec_get m x) eqn:E; [apply (Hm x e E)|reflexivity].
+  - cbn. destruct (rec_get m "inputs"); reflexivity.
   - cbn. destruct ret. reflexivity.
 Qed.
 
@@ -82,6 +83,11 @@ Proof.
     + cbn [free_vars]. destruct (mem x bound || _ || _ || _)%bool eqn:C; [intros []|].
       intros [<-|[]]. repeat split; auto. now left.
       apply orb_false_elim in C as [C _]. apply orb_false_elim in C as [C _]. apply orb_false_elim in C as [C _]. exact C.
+  - (* input reference: `inputs.field` with `inputs` inlined, or left in place *)
+    cbn [subst]. destruct (rec_get m "inputs") eqn:E.
+    + cbn [free_vars]. rewrite (proj1 (Hm _ e E) bound). intros [].
+    + cbn [free_vars]. destruct (mem "inputs" bound) eqn:C; [intros []|].
+      intros [<-|[]]. repeat split; auto. now left.
   - (* list *)
     cbn [subst].
     cbn [free_vars]. induction H as [|[a n t] l Hn Hl IH]; [intros []|].
